@@ -354,6 +354,11 @@ def fac_alloc_items(tier):
             continue
         for rule in ("SPT", "LPT", "TSLACK"):
             out.append((sp, {"rule": rule, "max_time": F.seq_bound(sp) + 8}))
+            fnames = F.facility_names(sp)
+            if fnames and rule != "TSLACK":
+                # the facility task names its machine (all of them: no restriction in effect) but leaves the operator open
+                sp2 = dict(sp, tasks=[dict(t, fixf=list(fnames)) if t.get("nf") else dict(t) for t in sp["tasks"]])
+                out.append((sp2, {"rule": rule, "max_time": F.seq_bound(sp) + 8}))
     return out
 
 
@@ -391,6 +396,13 @@ def alloc_items(tier):
                 sp["teams"][0]["workers"][{"solo-middle": 1, "solo-first": 0, "solo-last": 2}[var]]["solo"] = True
             for rule in ("SPT", "LPT", "TSLACK", "FIFO"):
                 out.append((sp, {"rule": rule, "max_time": F.seq_bound(sp) + 8}))
+    for wv in ((0, 3, 2), (2, 0, 3), (3, 2, 0)):
+        for links in ([], [[0, 1, "FF"]], [[1, 2, "FF"]], [[0, 2, "SF"]]):
+            fl = {"tasks": [{"name": F.tname(i), "work": float(w)} for i, w in enumerate(wv)], "links": links}
+            for lay in ("POOL1", "POOL2"):
+                sp = F.with_teams(fl, lay)
+                for rule in ("SPT", "LPT", "TSLACK"):
+                    out.append((sp, {"rule": rule, "max_time": F.seq_bound(sp) + 8}))
     # a task targeted by two teams, one of them wired through the constructor keyword only
     for sp in F.mixed_wiring_specs():
         for rule in ("SPT", "LPT", "TSLACK"):
